@@ -18,6 +18,12 @@ Line protocol of the C35 model (doubles are the 16 hex digits of their IEEE bits
                                                   boundinertia bi, balanceinertia, inertiafromgeom,
                                                   inertiagrouprange, then settotalmass stm = `applyTotalmass`;
                                                   hasipos = 0 leaves ipos[0] NaN, hasfull = 0 leaves fullinertia[0] NaN)
+  redit <api 0|1> <k> <n> { the 27 fixed tokens of `ibody` (bm … f5) + n x (<group> + 14 geom tokens) }*k
+                                               -> k results separated by ` | ` | `unsupported`
+                                                  (ONE mjSpec with one body and n geoms: stage 1 is built and compiled,
+                                                  every later stage overwrites all mass-relevant fields in place and
+                                                  compiles the same spec again — api 0: mj_compile, 1: mj_recompile;
+                                                  model: `bodyCompileState` threading the geom compile state)
   <kernel> tok...                              -> the generated user_util.cc kernel of that name (tokens as in
                                                   Drivers/Kernels.lean: float bits, `i<int>`)
 Malformed lines are answered with `bad-op`.  `type` is the mjtGeom code (2 sphere, 3 capsule, 4 ellipsoid,
@@ -132,6 +138,84 @@ def ibodyOp (ws : List String) : String :=
     | _, _, _, _, _, _, _, _, _, _ => "bad-op"
   | _ => "bad-op"
 
+/-- `<group>` + 14 geom tokens as a `GeomDesc`; `some none`: ellipsoid shell -/
+def geomDesc? (ws : List String) : Option (Option (GeomDesc Float)) :=
+  match ws with
+  | [grp, t, sh, um, md, s0, s1, s2, px, py, pz, qw, qx, qy, qz] =>
+    match int? grp, gtype? t, bool01? sh, bool01? um, (([md, s0, s1, s2, px, py, pz, qw, qx, qy, qz].mapM fl?) : Option (List Float)) with
+    | some grp, some t, some sh, some um, some [md, s0, s1, s2, px, py, pz, qw, qx, qy, qz] =>
+      if t == .ellipsoid && sh then some none else
+      let q := (normvec4 (⟨qw, qx, qy, qz⟩ : Q Float)).1
+      some (some ⟨grp, t, sh, if um then some md else none, if um then 1000.0 else md, ⟨s0, s1, s2⟩, ⟨px, py, pz⟩, q⟩)
+    | _, _, _, _, _ => none
+  | _ => none
+
+structure Stage where
+  o : MassOpts Float
+  stm : Float
+  sp : BodyInertial Float
+  geoms : List (GeomDesc Float)
+
+/-- 27 fixed tokens + n geoms -/
+def stage? (n : Nat) (ws : List String) : Option (Option Stage) :=
+  match ws with
+  | bm :: bi :: bal :: ifg :: glo :: ghi :: stm :: expl :: mass :: hasipos :: ipx :: ipy :: ipz :: qw :: qx :: qy :: qz ::
+    d0 :: d1 :: d2 :: hasfull :: f0 :: f1 :: f2 :: f3 :: f4 :: f5 :: rest =>
+    match ([bm, bi, stm, mass, ipx, ipy, ipz, qw, qx, qy, qz, d0, d1, d2, f0, f1, f2, f3, f4, f5].mapM fl? : Option (List Float)),
+          bool01? bal, fromgeom? ifg, int? glo, int? ghi, bool01? expl, bool01? hasipos, bool01? hasfull, chunks15 rest with
+    | some [bm, bi, stm, mass, ipx, ipy, ipz, qw, qx, qy, qz, d0, d1, d2, f0, f1, f2, f3, f4, f5],
+      some bal, some ifg, some glo, some ghi, some expl, some hasipos, some hasfull, some cs =>
+      if cs.length ≠ n then none else
+      match cs.mapM geomDesc? with
+      | none => none
+      | some gs =>
+        match gs.mapM id with
+        | none => some none
+        | some gs =>
+          some (some ⟨⟨bm, bi, bal, ifg, glo, ghi⟩, stm,
+            ⟨mass, if hasipos then some ⟨ipx, ipy, ipz⟩ else none, ⟨qw, qx, qy, qz⟩, ⟨d0, d1, d2⟩,
+             if hasfull then some ⟨f0, f1, f2, f3, f4, f5⟩ else none, expl⟩, gs⟩)
+    | _, _, _, _, _, _, _, _, _ => none
+  | _ => none
+
+def splitEvery (k : Nat) : Nat → List String → List (List String)
+  | 0, _ => []
+  | fuel + 1, ws => if ws.isEmpty then [] else ws.take k :: splitEvery k fuel (ws.drop k)
+
+/-- run the stages on one spec, threading the geom compile states -/
+def runStages : List Stage → List (GeomState Float) → List String → Option (List String)
+  | [], _, acc => some acc.reverse
+  | st :: rest, states, acc =>
+    if states.length ≠ st.geoms.length then none else
+    match bodyCompileState pi st.o ⟨0.0, 0.0, 0.0⟩ ⟨1.0, 0.0, 0.0, 0.0⟩ st.sp (st.geoms.zip states) with
+    | none => none
+    | some (res, states') =>
+      let out := match res with
+        | .error _ => "error"
+        | .ok b => match applyTotalmass st.stm [b] with
+          | [b] => showBody b
+          | _ => "error"
+      runStages rest states' (out :: acc)
+
+def reditOp (ws : List String) : String :=
+  match ws with
+  | api :: k :: n :: rest =>
+    match bool01? api, k.toNat?, n.toNat? with
+    | some _, some k, some n =>
+      let w := 27 + 15 * n
+      if k = 0 ∨ k > 16 ∨ n > 64 ∨ rest.length ≠ k * w then "bad-op" else
+      match (splitEvery w k rest).mapM (stage? n) with
+      | none => "bad-op"
+      | some sts =>
+        match sts.mapM id with
+        | none => "unsupported"
+        | some sts =>
+          match runStages sts (List.replicate n geomState0) [] with
+          | some outs => " | ".intercalate outs
+          | none => "bad-op"
+    | _, _, _ => "bad-op"
+  | _ => "bad-op"
+
 def step (line : String) : String :=
   match words line with
   | ["vol", t, sh, s0, s1, s2] =>
@@ -151,6 +235,7 @@ def step (line : String) : String :=
     | _, _, _, _, _, _ => "bad-op"
   | "body" :: n :: ws => bodyOp n ws
   | "ibody" :: ws => ibodyOp ws
+  | "redit" :: ws => reditOp ws
   | name :: toks =>
     match toks.mapM GenUU.parseTok with
     | some xs =>
